@@ -353,9 +353,11 @@ func rlFieldText(name string, d *rlDecl, o rlOpts, indent string) string {
 
 // the sibling fields of rlOpts.Siblings, with the names and proto field paths they occupy
 const rlSiblingText = "  field sibKey ! key:id62\n\n  field sibUuid ! key:uuid\n\n  field sibFlat object:SibInner {\n    flatten = true\n  }\n\n" +
-	"  field sibWhen ! timestamp {\n    rules.exclusiveMinimum = true\n  }\n\n  field sibTags ! array:string {\n    rules.uniqueItems = true\n    rules.minItems = 1\n  }\n\n"
+	"  field sibWhen ! timestamp {\n    rules.exclusiveMinimum = true\n  }\n\n  field sibTags ! array:string {\n    rules.uniqueItems = true\n    rules.minItems = 1\n  }\n\n" +
+	// an inline enum whose derived type name, Subject.Color, is the name of the top-level enum the subject may refer to
+	"  field color enum {\n    option DARK\n    option LIGHT\n  }\n\n"
 
-var rlSiblingNames = []string{"sibKey", "sibUuid", "sibFlat", "sibWhen", "sibTags"}
+var rlSiblingNames = []string{"sibKey", "sibUuid", "sibFlat", "sibWhen", "sibTags", "color"}
 
 // rlUnit is one compiled declaration: object <Msg> { [anchor] subject }.
 type rlUnit struct {
